@@ -53,6 +53,9 @@ def gen_case(streams, tier):
                        mem_wide_aw=0.0, mem_aw=(1, 4), rom_aw_max=3, regs=(0, 3), roms=(0, 2),
                        two_write_ports=0.4)
     script = gen.gen_script(g, cfg)
+    # (not copy / optimized copy: they create MemBlocks, and the process-wide memory id counter,
+    # which names the Verilog arrays, is not something the property holds constant)
+    script, stage = gen.maybe_stage(g, script, 0.25, ['sim', 'fast', 'export', 'analysis'])
     # Verilog-string constants: their auto-generated name contains a quote
     ncyc = streams['inputs'].randint(2, 6)
     kind = g.choice(['sim', 'sim', 'fast', 'compiled'] if g.random() < 0.3 else ['sim', 'fast'])
@@ -70,6 +73,7 @@ def gen_case(streams, tier):
             'writer_faults': [f.randrange(0, 40) for _ in range(3)],
             'passes': g.random() < 0.3,
             'small_for_passes': None,
+            'stage': stage,
             'sched': world.gen_sched(streams, with_iter=False)}
 
 
@@ -141,7 +145,11 @@ def run(case, res):
     for k, sc in enumerate(case['scheds']):
         common.install_hash_seam(sc['hash_seed'])
         common.reset_world()
-        b = build(script, perm_seed=sc['perm_seed'], noise=sc['noise'])
+        staged = bool(case.get('stage')) and k == len(case['scheds']) - 1
+        # the last build reaches the same design through another history: the design is used
+        # (simulated, exported, analysed, copied) when half built, then completed
+        b = build(script, perm_seed=sc['perm_seed'], noise=sc['noise'],
+                  stage=world.stage_with_hook(case.get('stage'), res) if staged else None)
         try:
             texts = render.render_all(b, init, case['cycles'], case['kind'], case['add_reset'])
         except pyrtl.PyrtlError as e:
@@ -165,7 +173,8 @@ def run(case, res):
                                  {'channel': name, 'schedules': [base_k, k], 'diff': d,
                                   'confirmed_in_unpatched_subprocesses': confirmed},
                                  ['channel:' + name.split('_')[0] if name.startswith('print') else 'channel:' + name]
-                                 + ntags + (['confirmed'] if confirmed else ['unconfirmed']))
+                                 + ntags + (['confirmed'] if confirmed else ['unconfirmed'])
+                                 + (['history:staged_build'] if staged else []))
     res.cycles += len(case['cycles']) * len(case['scheds'])
     res.probes.hit('inprocess_schedules', len(case['scheds']))
     if case.get('subprocess'):
